@@ -27,7 +27,7 @@ void harness(void)
   encrypt_r(b1, in_edflag, &cd);
   setkey(in_key);
   encrypt(b2, in_edflag);
-  uint64_t want = __CPROVER_uninterpreted_des_block(__CPROVER_uninterpreted_des_keyid(pack(in_key)), 0, pack(in_block), 1, in_edflag != 0);
+  uint64_t want = __CPROVER_uninterpreted_des_block(__CPROVER_uninterpreted_des_keyid(pack(in_key) & 0xfefefefefefefefeULL), 0, pack(in_block), 1, in_edflag != 0);
   for (int i = 0; i < 64; i++) {
     VF_ASSERT(b1[i] == 0 || b1[i] == 1, "C17: encrypt_r results are bytes 0/1");
     VF_ASSERT((uint64_t)b1[i] == ((want >> (63 - i)) & 1), "C17: encrypt_r = unpack(DES(pack(key) [low bits only], pack(block)), salt 0, count 1)");
